@@ -87,3 +87,34 @@ Lemma gen_flow_filters : forall already empty : bool,
   g_proposal_filterer_body already = (if already then ([], Fall) else ([1], Fall)) /\
   g_final_flow_tick_body empty = (if empty then ([1], Fall) else ([2], Fall)).
 Proof. intros [|] [|]; split; reflexivity. Qed.
+
+(* ---------------- wiring of the flows ---------------- *)
+(* what each flow constructor hands to NewRunnableObserver, read from pkg/v3/flows/*.go by gen/wiring.go:
+   post-processors 1 eligible -> staging, 2 retryable -> retry queue, 3 ineligible -> state updater, 4 proposals ->
+   metadata store; pre-processors 0 the coordinator (the caller's slice), 5 proposal filterer *)
+Definition memZ (x : Z) (l : list Z) : bool := existsb (Z.eqb x) l.
+Definition post_of (k : kind) : list Z :=
+  match k with
+  | KLog => g_wire_log_post | KRetry => g_wire_retry_post | KRecFinal => g_wire_rec_final_post
+  | KCondFinal => g_wire_cond_final_post | KRecProp => g_wire_rec_prop_post | KSample => g_wire_sample_post
+  end.
+Definition pre_of (k : kind) : list Z :=
+  match k with
+  | KLog => g_wire_log_pre | KRetry => g_wire_retry_pre | KRecFinal => g_wire_rec_final_pre
+  | KCondFinal => g_wire_cond_final_pre | KRecProp => g_wire_rec_prop_pre | KSample => g_wire_sample_pre
+  end.
+
+(* the model's table of which flow holds which post-processor is the wiring found in the source *)
+Lemma gen_wiring_post : forall k,
+  has_stage k = memZ 1 (post_of k) /\ has_retry k = memZ 2 (post_of k) /\
+  has_inelig k = memZ 3 (post_of k) /\ has_prop k = memZ 4 (post_of k).
+Proof. intros k. destruct k; vm_compute; repeat split. Qed.
+
+(* every flow's pre-processors start with the coordinator; the two proposal flows add the proposal filterer *)
+Lemma gen_wiring_pre : forall k,
+  hd (-1) (pre_of k) = 0 /\ memZ 5 (pre_of k) = has_prop k.
+Proof. intros k. destruct k; vm_compute; repeat split. Qed.
+
+(* the factories hand every flow constructor a slice holding exactly the coordinator *)
+Lemma gen_wiring_factories : g_wire_factory_log = [0; 0; 0] /\ g_wire_factory_cond = [0; 0].
+Proof. split; reflexivity. Qed.
